@@ -86,14 +86,14 @@ func genRxRandom(depth int) *rapid.Generator[Rx] {
 		case 7:
 			return Rx{K: "alt", Subs: rapid.SliceOfN(genRxRandom(depth-1), 2, 3).Draw(t, "subs")}
 		case 8:
-			return Rx{K: "star", Subs: []Rx{genRxRandom(depth - 1).Draw(t, "sub")}}
+			return Rx{K: "star", Subs: []Rx{genRxRandom(depth-1).Draw(t, "sub")}}
 		case 9:
-			return Rx{K: "plus", Subs: []Rx{genRxRandom(depth - 1).Draw(t, "sub")}}
+			return Rx{K: "plus", Subs: []Rx{genRxRandom(depth-1).Draw(t, "sub")}}
 		case 10:
-			return Rx{K: "opt", Subs: []Rx{genRxRandom(depth - 1).Draw(t, "sub")}}
+			return Rx{K: "opt", Subs: []Rx{genRxRandom(depth-1).Draw(t, "sub")}}
 		default:
 			mn := rapid.IntRange(0, 2).Draw(t, "min")
-			return Rx{K: "rep", Min: mn, Max: mn + rapid.IntRange(0, 1).Draw(t, "more"), Subs: []Rx{genRxRandom(depth - 1).Draw(t, "sub")}}
+			return Rx{K: "rep", Min: mn, Max: mn + rapid.IntRange(0, 1).Draw(t, "more"), Subs: []Rx{genRxRandom(depth-1).Draw(t, "sub")}}
 		}
 	})
 }
